@@ -224,4 +224,33 @@ def deliver {σ : Type} (fs : List Fact) (scribble : World σ → World σ)
 /-- a registry message by the registry admin -/
 def deliverEdit {σ : Type} (w : World σ) (e : Edit) : World σ := { w with registry := applyEdit w.registry e }
 
+/-! ### a transaction of several messages (baseapp `runMsgs`): all messages run on ONE branch of the
+    state; the branch is written back only if every message succeeded and the call is not a
+    simulation.  Only the registry component is tracked here (registry messages write it, AMM / IBC
+    messages read it); the rest of the state is rolled back by the same mechanism. -/
+
+inductive TxItem where
+  /-- a registry message by the registry admin -/
+  | edit (e : Edit)
+  /-- an AMM / IBC message with the guard prologue `fs`; `bodyOk` = whatever comes after the guards
+      succeeds (environment value) -/
+  | msg (fs : List Fact) (m : Msg) (bodyOk : Bool)
+
+/-- one message on the branch: `none` = it failed (the transaction stops there) -/
+def txStep (reg : Registry) : TxItem → Option Registry
+  | .edit e => some (applyEdit reg e)
+  | .msg fs m bodyOk => if evalFacts reg m fs && bodyOk then some reg else none
+
+def runItems (reg : Registry) : List TxItem → Option Registry
+  | [] => some reg
+  | it :: rest => match txStep reg it with
+    | some reg' => runItems reg' rest
+    | none => none
+
+/-- the committed registry after the transaction -/
+def deliverTx (reg : Registry) (items : List TxItem) (simulate : Bool) : Registry :=
+  match runItems reg items with
+  | some reg' => if simulate then reg else reg'
+  | none => reg
+
 end Sif.Registry
